@@ -26,7 +26,10 @@ def battery(ck, key, why, extra=()):
     """replay of boundary entropy streams (scripted reader) after a failed obligation"""
     z, nblk, v1 = '00' * 32, '%064x' % N, '%064x' % (N + 5)
     streams = list(extra) + [z + nblk + v1, v1, '%064x' % (N - 1), z, nblk + z, 'ff' * 32, z + 'ff' * 32, '', z + z + z + nblk, '%064x' % 1]
-    path = ck.save_replay({'property': 'C18', 'cases': [{'kind': 'random', 'a': s} for s in streams], 'obligation': key})
+    cases = [{'kind': 'random', 'a': s} for s in streams]
+    # the same streams delivered in pieces (an io.Reader may return short reads), and a source failing mid-block
+    cases += [{'kind': 'random', 'a': s, 'n': ch} for s in streams for ch in (16, 1, 31)] + [{'kind': 'random', 'a': v1[:40], 'n': 7}, {'kind': 'random', 'a': z + v1[:20]}]
+    path = ck.save_replay({'property': 'C18', 'cases': cases, 'obligation': key})
     ok, out = core.go_test(path)
     if not ok and 'MISMATCH' in out:
         ck.violation('random:' + key, '%s: %s' % (why, [l.strip() for l in out.splitlines() if 'MISMATCH' in l][:1]), path)
